@@ -420,8 +420,22 @@ class Point:
                 nd = node_by_uid(k[1])
                 if nd.op == 'fn' and nd.val == 'log':
                     out.append((('logval', self.ev(nd.args[0])), e)); continue
+                if nd.op == 'fn' and nd.val == 'atan2':
+                    yv = self.ev(nd.args[0]); xv = self.ev(nd.args[1])
+                    if yv[1] != 0 or xv[1] != 0:
+                        raise AnalysisError('atan2 of non-real values')
+                    h2 = (xv[0] * xv[0] + yv[0] * yv[0]) % P
+                    if legendre(h2) != 1:
+                        raise Resample()
+                    hinv = _inv(pow(h2, (P + 1) // 4, P))
+                    out.append((('argval', (xv[0] * hinv % P, yv[0] * hinv % P)), e)); continue
                 if nd.op == 'fn' and nd.val not in ('exp', 'cexp', 'sin', 'cos', 'tan') or nd.op in ('div', 'powi', 'cmp'):
                     out.append((('val', self.ev(nd)), e)); continue
+            if len(m) == 1 and e == 1 and (k[0] == 'a' or (k[0] == 'n' and node_by_uid(k[1]).op == 'fn' and node_by_uid(k[1]).val in ('real', 'imag'))):
+                # a lone real quantity: keyed by its value, so that exp(x) and exp(real(x + i y)) share one base
+                vv = self.ev(node_by_uid(k[1]))
+                if vv[1] == 0:
+                    out.append((('val', vv), e)); continue
             out.append((k, e))
         return tuple(sorted(out, key=repr))
 
@@ -443,6 +457,20 @@ class Point:
                     r = c_mul(r, c_pow(mk[0][0][1], int(cr)))
                 except ZeroDivisionError:
                     raise Resample()
+                continue
+            if len(mk) == 1 and mk[0][0][0] == 'logval' and mk[0][1] == 1 and ci == 0 and cr.denominator == 2 and not times_i:
+                # exp((k/2) log x) = sqrt(x)^k: the principal root of a "positive" (quadratic-residue) real value
+                xv = mk[0][0][1]
+                if xv[1] != 0 or legendre(xv[0]) != 1:
+                    raise Resample()
+                try:
+                    r = c_mul(r, c_pow((pow(xv[0], (P + 1) // 4, P), 0), int(cr.numerator)))
+                except ZeroDivisionError:
+                    raise Resample()
+                continue
+            if len(mk) == 1 and mk[0][0][0] == 'argval' and mk[0][1] == 1 and cr == 0 and ci.denominator == 1:
+                # exp(i k atan2(y, x)) = ((x + i y)/|x + i y|)^k for integer k
+                r = c_mul(r, c_pow(mk[0][0][1], int(ci)))
                 continue
             for part, imag in ((cr, False), (ci, True)):
                 if part == 0: continue
